@@ -442,6 +442,11 @@ def run(ctx):
     from .c17 import check_send
 
     report.share(ctx, "C08.S1", check_send)
+    # a primary is handed to its handler only in the SELECTED state: an accepted select is final - the transition writes
+    # the new state once and nothing takes it back when a listener of the entered state fails (C18.P1)
+    from .c18 import check_perform
+
+    report.share(ctx, "C08.S1", check_perform, only={"C18.P1"})
     # a primary is answered only if it is framed, reassembled and dispatched: wake-ups of the receiver/dispatcher threads are
     # not lost (shared with C04/C06/C09/C17) and a multi-block primary is complete with its last block (shared with C16.P3)
     from ._dispatch import check_dispatcher
